@@ -9,7 +9,11 @@
 // with provenance markers, parses them, runs the REAL augmentOverlayFile /
 // augmentOriginalImports / augmentOriginalFile (build.VerifAugment), reads the
 // item set back from the resulting ASTs and compares; when the reference says
-// the pair is consistent the merged package must pass go/types.  A last phase
+// the pair is consistent the merged package must pass go/types.  Imports are
+// used by function bodies, initialisers and SIGNATURES (parameter, result and
+// constraint types of imported packages): the imports of both files after the
+// merge are compared with the prediction (an import whose last use was a
+// replaced signature goes, an import the new signature names stays).  A last phase
 // merges every overlay package of compiler/natives with its GOROOT original
 // and checks version-independent structural invariants.
 //
@@ -45,13 +49,13 @@ func init() { reg.Register("C12", "model_checking", Run) }
 // ---------------------------------------------------------------- importer
 
 var fakeSrc = map[string]string{
-	"vp/p1": "package p1\nconst V = 0\ntype T struct{}\ntype C interface{ ~int32 | ~int64 }\nfunc f(x int32) int32 { return x }\n",
-	"vp/p2": "package p2\nconst V = 0\ntype T struct{}\n",
-	"vp/p3": "package p3\n",
-	"vp/p4": "package p4\nconst DotV = 0\ntype DotT struct{}\n",
-	"sync":  "package sync\ntype Mutex struct{}\n",
+	"vp/p1":                               "package p1\nconst V = 0\ntype T struct{}\ntype C interface{ ~int32 | ~int64 }\nfunc f(x int32) int32 { return x }\n",
+	"vp/p2":                               "package p2\nconst V = 0\ntype T struct{}\n",
+	"vp/p3":                               "package p3\n",
+	"vp/p4":                               "package p4\nconst DotV = 0\ntype DotT struct{}\n",
+	"sync":                                "package sync\ntype Mutex struct{}\n",
 	"github.com/gopherjs/gopherjs/nosync": "package nosync\ntype Mutex struct{}\n",
-	"embed": "package embed\ntype FS struct{}\n",
+	"embed":                               "package embed\ntype FS struct{}\n",
 }
 
 type fakeImporter map[string]*types.Package
@@ -413,9 +417,9 @@ func setOf(xs ...string) string {
 
 type scenCfg struct {
 	names, fu, vu, su, ips, classes []string
-	bls                         string
-	mode                        string
-	maxo, maxv, nchunks         int
+	bls                             string
+	mode                            string
+	maxo, maxv, nchunks             int
 }
 
 func (s scenCfg) text() string {
@@ -517,8 +521,16 @@ func Run(c *core.Ctx, pool *gjs.Pool) {
 	rng := rand.New(rand.NewSource(c.Seed))
 	var recs []*recT
 	invalid := 0
+	// TLC workers: 8 by default (VERIF_WORKERS=16), scaled down with VERIF_WORKERS on a shared machine
+	tlcWorkers := c.Workers / 2
+	if tlcWorkers > 8 {
+		tlcWorkers = 8
+	}
+	if tlcWorkers < 1 {
+		tlcWorkers = 1
+	}
 	runScen := func(name string, cfg scenCfg, files map[string]string) bool {
-		r, err := tlcx.Run(c, tlcx.Opts{Module: "OverlayScen", Cfg: cfg.text(), Workers: 8, Timeout: 40 * time.Minute, Files: files, HeapMB: 8192})
+		r, err := tlcx.Run(c, tlcx.Opts{Module: "OverlayScen", Cfg: cfg.text(), Workers: tlcWorkers, Timeout: 40 * time.Minute, Files: files, HeapMB: 8192})
 		if !tlcx.MustComplete(c, r, err, "OverlayScen ("+name+")") {
 			return false
 		}
@@ -537,14 +549,36 @@ func Run(c *core.Ctx, pool *gjs.Pool) {
 	full := scenCfg{names: []string{"A", "B"}, fu: []string{""}, vu: []string{""}, su: []string{"", "pl"}, ips: []string{"vp/pkg"}, bls: "{FALSE}", mode: "full",
 		classes: []string{"func", "meth", "lnk", "type1", "var1", "const1", "iota"}, maxo: 1, maxv: 1}
 	if c.Thorough() {
-		full.fu, full.vu = []string{"", "pl", "us"}, []string{"", "pl"}
+		full.fu, full.vu, full.su = []string{"", "pl", "us"}, []string{"", "pl"}, []string{"", "pl", "plr", "us"}
 		full.classes = []string{"func", "meth", "lnk", "type1", "type2", "var1", "const1", "iota"}
-		full.maxo = 2
 	}
 	if !runScen("full", full, nil) {
 		return
 	}
 	c.Phase("tlc-full")
+	// 1b. exhaustive product focused on functions, methods and their receiver types with TWO original
+	// declarations: a file whose only change is a replaced signature / a rename / the purge of the last
+	// user of an import, next to an untouched declaration that may or may not use the same import
+	full2 := scenCfg{names: []string{"A"}, fu: []string{""}, vu: []string{""}, su: []string{"", "pl"}, ips: []string{"vp/pkg"}, bls: "{FALSE}", mode: "full",
+		classes: []string{"func", "meth", "type1"}, maxo: 2, maxv: 1}
+	if c.Thorough() {
+		full2.fu, full2.su = []string{"", "pl"}, []string{"", "pl", "us"}
+		full2.classes = []string{"func", "meth", "lnk", "type1"}
+	}
+	if !runScen("full2", full2, nil) {
+		return
+	}
+	c.Phase("tlc-full2")
+	// 1c. thorough only: every declaration class with TWO original declarations (signatures without
+	// imported types: the product with signature uses is covered by 1a, 1b and the sample)
+	full3 := scenCfg{names: []string{"A", "B"}, fu: []string{"", "pl", "us"}, vu: []string{"", "pl"}, su: []string{""}, ips: []string{"vp/pkg"}, bls: "{FALSE}", mode: "full",
+		classes: []string{"func", "meth", "lnk", "type1", "type2", "var1", "const1", "iota"}, maxo: 2, maxv: 1}
+	if c.Thorough() {
+		if !runScen("full3", full3, nil) {
+			return
+		}
+		c.Phase("tlc-full3")
+	}
 	// 2. seeded sample of the whole universe
 	npairs := c.Pick(24000, 600000)
 	if v := os.Getenv("VERIF_C12_PAIRS"); v != "" { // development aid: smaller sample
@@ -574,12 +608,13 @@ func Run(c *core.Ctx, pool *gjs.Pool) {
 		return
 	}
 	c.Phase("tlc-sample")
-	c.Set("checker_cmd", "tlc OverlayScen (INVARIANT Thm: OverlayAllIn, NoDupKeys, EmptyIsIdentity, Unrelated, OnlyInputs, ImportsExact (NoUnusedImport, NoMissingImport) on every pair; INVARIANT Emit), Mode=full then Mode=sample")
+	c.Set("checker_cmd", "tlc OverlayScen (INVARIANT Thm: OverlayAllIn, NoDupKeys, EmptyIsIdentity, Unrelated, OnlyInputs, ImportsExact (NoUnusedImport, NoMissingImport) on every pair; INVARIANT Emit), Mode=full (two universes, thorough: three) then Mode=sample")
 	c.Set("exhaustive", false)
-	c.Set("exhaustive_part", fmt.Sprintf("Mode=full: every pair of well-formed sides with <= %d original and <= %d overlay declarations over names %v, classes %v, body uses %v, signature uses %v", full.maxo, full.maxv, full.names, full.classes, full.fu, full.su))
+	c.Set("exhaustive_part", fmt.Sprintf("Mode=full: every pair of well-formed sides with <= %d original and <= %d overlay declarations over names %v, classes %v, body uses %v, signature uses %v; and the same with <= %d original and <= %d overlay declarations over names %v, classes %v, body uses %v, signature uses %v", full.maxo, full.maxv, full.names, full.classes, full.fu, full.su, full2.maxo, full2.maxv, full2.names, full2.classes, full2.fu, full2.su)+
+		map[bool]string{false: "", true: fmt.Sprintf("; and with <= %d original and <= %d overlay declarations over names %v, classes %v, body uses %v, signature uses %v", full3.maxo, full3.maxv, full3.names, full3.classes, full3.fu, full3.su)}[c.Thorough()])
 	c.Set("sample_descriptors", npairs)
 	c.Set("sample_descriptors_not_wellformed", invalid)
-	c.Set("rule", "TLC enumerates (a) the full product of well-formed sides over the reduced universe and (b) VERIF_SEED-chosen pair descriptors over the 4-name universe (<= 3 declarations per side, every declaration class, directive variant, import use by a body / initialiser and import use by a signature: parameter, result or constraint type of an imported package); a case is one pair (original side, overlay side, import path); distinct = distinct pairs; non-trivial = the overlay shares a key or receiver type with the original or carries a directive")
+	c.Set("rule", "TLC enumerates (a) the full product of well-formed sides over two (thorough: three) reduced universes and (b) VERIF_SEED-chosen pair descriptors over the 4-name universe (<= 3 declarations per side, every declaration class, directive variant, import use by a body / initialiser and import use by a signature: parameter, result or constraint type of an imported package); a case is one pair (original side, overlay side, import path); distinct = distinct pairs; non-trivial = the overlay shares a key or receiver type with the original or carries a directive")
 	if os.Getenv("VERIF_C12_CORRUPT") == "pred" {
 		for _, r := range recs {
 			if len(r.M) > 0 && nontrivial(r) {
